@@ -187,7 +187,7 @@ template <class TM, class TO> static void maps_real(uint64_t seed, int n) {
 // ---- beyond the listed properties: GetType and the printed / serialised forms of the three models (their calls are in scope of C20 through the sanitized re-run) ----
 static std::string jesc(const std::string& s) { std::string o; char b[8]; for (unsigned char c : s) { if (c == '"' || c == '\\') { o += '\\'; o += (char)c; } else if (c < 0x20) { snprintf(b, 8, "\\u%04x", c); o += b; } else if (c >= 0x80) { if ((c & 0xC0) != 0x80) o += '?'; } else o += (char)c; } return o; }
 template <class M, class P1, class P2> static void model_text_one(const char* mn, const char* num, const M& m, const ConstitutiveModel::Type expect, const P1& p1, const P2* p2) {
-  const ConstitutiveModel& base = m; std::ostringstream os; os << m; std::string forms[4] = {base.Print(), base.JSON(), base.XML(), base.YAML()}; static const char* FN[4] = {"Print", "JSON", "XML", "YAML"};
+  const ConstitutiveModel& base = m; std::ostringstream os; os << m; { std::ostringstream ob; ob << base; if (ob.str() != os.str()) os << "<base stream differs>"; } std::string forms[4] = {base.Print(), base.JSON(), base.XML(), base.YAML()}; static const char* FN[4] = {"Print", "JSON", "XML", "YAML"};
   std::string parts1[4] = {p1.Print(), p1.JSON(), p1.XML(), p1.YAML()}; std::string parts2[4]; if (p2) { parts2[0] = p2->Print(); parts2[1] = p2->JSON(); parts2[2] = p2->XML(); parts2[3] = p2->YAML(); }
   std::string abbr(Abbreviation(base.GetType()));
   for (int f = 0; f < 4; f++) { size_t a = forms[f].find(parts1[f]); size_t b = p2 ? forms[f].find(parts2[f], a == std::string::npos ? 0 : a + parts1[f].size()) : 0;
